@@ -33,7 +33,16 @@ type CollationOrderKey[K chars | []rune] struct {
 func (cok *CollationOrderKey[K]) Transform(k K) ([]byte, []byte) {
 	cok.src = k
 	b := []byte(string(k))
-	return b, cok.c.Key(cok.buf, b)
+	key := cok.c.Key(cok.buf, b)
+
+	// A collation key can be a proper prefix of another one (e.g. when the
+	// tertiary level is ignored, or for the empty string), which a radix tree
+	// cannot represent. Terminate the key with two zero bytes: no weight at any
+	// level starts with 00 00, so terminated keys are prefix-free and keep
+	// their order. The key is copied out because the buffer is reused.
+	colKey := make([]byte, len(key)+2)
+	copy(colKey, key)
+	return b, colKey
 }
 func (cok *CollationOrderKey[K]) Restore(b []byte) K { return cok.src }
 
